@@ -402,8 +402,10 @@ impl ViCut {
 		if let (Some(VerbCmd(_,Verb::Change)), Some(motion)) = (cmd.verb(), cmd.motion.as_ref()) {
 			// 'c' with a motion that fails (no such character, no such text object) is cancelled as a whole:
 			// insert mode is not entered
+			// h, l, 0, ^ and $ never fail under an operator: with nothing to take, 'c' still opens an insert
+			let never_fails = matches!(motion.1, Motion::BackwardChar | Motion::ForwardChar | Motion::BeginningOfLine | Motion::BeginningOfFirstWord | Motion::EndOfLine);
 			let motion_kind = self.current_buffer().eval_motion(Some(&Verb::Change), motion.clone());
-			if matches!(motion_kind, MotionKind::Null) {
+			if matches!(motion_kind, MotionKind::Null) && !never_fails {
 				return Ok(())
 			}
 		}
